@@ -17,6 +17,12 @@ Scenarios
   shrink    between the uncached lookup's check of how many arities a registry holds and its fetch of that arity's
             table, the last registration of the arity is removed (what a mutator thread can do at that point; injected
             through the lookup object's extendors table, which is consulted in between)
+  hashhook  the HIDDEN callbacks of the cache probes: `hashhook <flavour> <entry point> <provided|required|name>`.  The provided
+            interface / the required specification is an instance of a user subclass of InterfaceClass with a `__hash__` written
+            in Python, the name an instance of a str subclass with `__bool__`; while the lookup hashes (truth-tests) it, that
+            code mutates the registry (every cache is dropped) and then creates empty dictionaries of its own -- which
+            CPython's dict free list serves from the memory of the caches just freed.  None of them may be written, the
+            answer must be the one before or after the mutation, and later calls answer the registry's content
   inmut     the dual schedule: a MUTATOR interrupted by lookups.  `inmut <flavour> <placement> <mutator> <how> [<stride>
             <offset>]`.  The registry stores its data in instrumented versions of the documented storage types
             (`_sequenceType`, `_mappingType`, `_providedType`, `_leafSequenceType` + `_addValueToLeaf` /
@@ -451,6 +457,71 @@ def run(lines, out, args):
                     got = "FAIL: the interrupted %s returned %r, neither the answer before (%r) nor after (%r) the mutation" % (ep, first, old, new)
                 elif any(x != new for x in later):
                     got = "FAIL: after the mutation %s keeps answering %r, the registry now holds %r (an answer computed before the mutation survived in the cache)" % (ep, later, new)
+            elif scen == "hashhook":
+                who = f[3]
+                state = {"armed": False, "pool": [], "reg": None}
+
+                def fire():
+                    if state["armed"]:
+                        state["armed"] = False
+                        reg_ = state["reg"]
+                        reg_.register((IR,), IPo, "x", fac2)        # any mutation: changed() drops every cache
+                        reg_.unregister((IR,), IPo, "x", fac2)
+                        state["pool"].extend({} for _ in range(32))
+
+                class HookedIC(InterfaceClass):
+                    def __hash__(self):
+                        fire()
+                        return InterfaceClass.__hash__(self)
+
+                class HookedName(str):
+                    def __bool__(self):
+                        fire()
+                        return len(self) > 0
+                IPo = InterfaceClass("IPo", (Interface,), __module__="zi.gen")
+                IPh = (HookedIC if who == "provided" else InterfaceClass)("IPh", (Interface,), __module__="zi.gen")
+                IRh = (HookedIC if who == "required" else InterfaceClass)("IRh", (Interface,), __module__="zi.gen")
+                nm = HookedName("n") if who == "name" else "n"
+                reg = mkreg(flavour, lambda kind, lk, compute: compute())
+                state["reg"] = reg
+                reg.register((IRh,), IPh, "n", fac1)
+                reg.subscribe((IRh,), IPh, fac1)
+
+                @implementer(IRh)
+                class ObH:
+                    pass
+                obh = ObH()
+
+                def ask_h():
+                    if ep == "lookup":
+                        return reg.lookup((IRh,), IPh, nm)
+                    if ep == "lookup1":
+                        return reg.lookup1(IRh, IPh, nm)
+                    if ep == "lookupAll":
+                        return tuple(sorted(reg.lookupAll((IRh,), IPh)))
+                    if ep == "subscriptions":
+                        return tuple(reg.subscriptions((IRh,), IPh))
+                    if ep == "queryAdapter":
+                        return reg.queryAdapter(obh, IPh, nm)
+                    if ep == "adapter_hook":
+                        return reg.adapter_hook(IPh, obh, nm)
+                    return reg.queryMultiAdapter((obh,), IPh, nm)
+                want = {"lookup": fac1, "lookup1": fac1, "lookupAll": (("n", fac1),), "subscriptions": (fac1,)}.get(ep, "adapter-1")
+                for warm in (False, True):
+                    if warm:
+                        ask_h()
+                    state["armed"] = True
+                    del state["pool"][:]
+                    first = ask_h()
+                    state["armed"] = False
+                    dirty = [d for d in state["pool"] if d]
+                    later = ask_h()
+                    if dirty:
+                        got = "FAIL: while %s hashed / truth-tested its %s the registry was mutated; a dictionary created by that code afterwards was written by the lookup: %r" % (ep, who, dirty[0])
+                    elif first != want or later != want:
+                        got = "FAIL: %s interrupted while hashing its %s answered %r then %r; the registry holds %r before and after" % (ep, who, first, later, want)
+                    if got != "ok":
+                        break
             elif scen == "stale-rebase":
                 # a chain T <- M <- B; while B's uncached lookup is in flight (its answer from T already computed) M is re-based
                 # onto T2.  The interrupted call may answer from either chain; every later call answers from T2 and keeps doing so
